@@ -204,6 +204,8 @@ def check_discovery(chk, cf, o, loc):
         return
     init, parts = sm
     ok = init in (C(0), C(0.0)) and len(parts) == 1
+    # (the sum is decoded: describe it by its parts, not by the raw loop term)
+    detail = f"running sum starting at {cn.show(init)} with {len(parts)} adding site(s)"
     if ok:
         added_t, loops, inside, _ev = parts[0]
         cond = cf.strip(cn.conj(tuple(inside)))
